@@ -175,7 +175,7 @@ func cmdWorker(args []string) int {
 		}
 		seed := sim.MixSeed(*base, *prop, idx)
 		what = fmt.Sprintf("prop=%s base=%d index=%d", *prop, *base, idx)
-		wd := watchdog(300*time.Second, &what)
+		wd := watchdog(1200*time.Second, &what)
 		tp := sim.TapesForRun(*base, *prop, idx)
 		ropt := opt
 		ropt.Sample = len(rep.Samples) < 2 && n%7 == 3
@@ -384,7 +384,7 @@ func cmdReplay(args []string) int {
 		return 0
 	}
 	what := "replay " + *file
-	wd := watchdog(300*time.Second, &what)
+	wd := watchdog(1200*time.Second, &what)
 	o := sim.SafeRun(c, sim.ReplayTapes(f.Tapes), sim.RunOpt{Race: sim.RaceEnabled, Sample: true, KeepLog: !*quiet})
 	wd.Stop()
 	if os.Getenv("VERIF_DUMPLOG") != "" {
@@ -438,7 +438,7 @@ func replaySequence(c sim.Checker, f *Finding, quiet bool) int {
 	for n := 0; n < sq.Count; n++ {
 		idx := sq.From + uint64(n)*sq.Stride
 		what := fmt.Sprintf("sequence replay %s index %d", f.Property, idx)
-		wd := watchdog(300*time.Second, &what)
+		wd := watchdog(1200*time.Second, &what)
 		last = sim.SafeRun(c, sim.TapesForRun(sq.Base, f.Property, idx), sim.RunOpt{Race: sim.RaceEnabled, Sample: n == sq.Count-1})
 		wd.Stop()
 		if last.HarnessErr != "" {
@@ -481,7 +481,7 @@ func cmdDigest(args []string) int {
 			return 2
 		}
 		what := fmt.Sprintf("digest %s index %d", *prop, idx)
-		wd := watchdog(300*time.Second, &what)
+		wd := watchdog(1200*time.Second, &what)
 		last = sim.SafeRun(c, sim.TapesForRun(*base, *prop, idx), sim.RunOpt{})
 		wd.Stop()
 	}
